@@ -324,7 +324,10 @@ func (ex *Exec) loopModSet(fr *Frame, li *loopInfo) *modSet {
 					if mk, ok := x.(*ssa.MakeSlice); ok {
 						addElemKeys(ms, mk.Type().Underlying().(*types.Slice).Elem())
 					}
-				case *ssa.Go, *ssa.Send, *ssa.Select:
+				case *ssa.Send:
+					// a send changes nothing in this goroutine's memory (sequential
+					// reasoning: interference from other goroutines is not modelled)
+				case *ssa.Go, *ssa.Select:
 					ms.all = true
 				case ssa.CallInstruction:
 					ex.scanCallMods(ms, x, depth, seen, scanFn)
@@ -858,7 +861,16 @@ func (ex *Exec) instr(fr *Frame, st *State, in ssa.Instruction) {
 		ex.unsup("go statement in " + fr.label)
 		ex.havocAll(st, "instr.go:742")
 	case *ssa.Send:
-		ex.unsup("channel send in " + fr.label)
+		// a send has no effect on this function's memory; contracts observe it
+		// as the event `oncall send` (arg0 = channel, arg1 = value sent)
+		if ex.contract != nil && fr.isTop && len(ex.contract.OnCalls) > 0 {
+			args := []Val{ex.get(fr, x.Chan), ex.get(fr, x.X)}
+			pt := []types.Type{x.Chan.Type(), x.X.Type()}
+			ex.fireOnCallTyped(fr, st, "send", args, pt, nil, nil, nil, true)
+			ex.fireOnCallTyped(fr, st, "send", args, pt, nil, nil, nil, false)
+		} else {
+			ex.unsup("channel send in " + fr.label)
+		}
 	case *ssa.Select:
 		ex.unsup("select in " + fr.label)
 		fr.regs[x] = ex.freshVal(x.Type(), x.Name())
@@ -1024,8 +1036,9 @@ func (ex *Exec) unop(fr *Frame, st *State, x *ssa.UnOp) Val {
 		}
 		return SV{app(SInt, "-", sv)}
 	case token.ARROW:
-		ex.unsup("channel receive in " + fr.label)
-		ex.havocAll(st, "instr.go:894")
+		// a receive yields some value of the element type; this goroutine's
+		// memory is unchanged (sequential reasoning, as for sends)
+		ex.assumedUsed["channel receive in "+fr.label+": any value, no interference"] = true
 		return ex.freshVal(x.Type(), x.Name())
 	case token.XOR:
 		return SV{app(SInt, "bitnot_", ex.term(v, SInt))}
